@@ -5,20 +5,20 @@ TRUSTED_BASE = [
     "Lean 4.33 kernel (incl. GMP Nat arithmetic used by `decide +kernel`), Mathlib v4.33 as compiled in the image",
     "axioms admitted: propext, Classical.choice, Quot.sound (audited per theorem on every run with #print axioms); no native_decide, bv_decide, sorry, axiom, implemented_by (grep on every run)",
     "the theorem statements in lean/PP/Props and the specs in lean/PP/Spec (RFC 9380 / ZCash format transcribed from knowledge; no RFC text offline)",
-    "extract/extract.py (translator: constants, chains, ladders, derive output from rustc -Zunpretty=expanded); a parse failure is a broken obligation",
-    "hand-written model lean/PP/Model tied to /repo by differential execution (harness/ppexec vs lean ppdrv) on the generated cases only",
+    "the translators extract/extract*.py (python): extract.py (constants, tables, ladders, addition chains), extract_mont.py (unrolled limb-level Montgomery code from rustc -Zunpretty=expanded), extract_derive.py (the rest of the derive-generated Fq/Fr/FqRepr/FrRepr code and ff's Field::pow), extract_arith.py (85 functions: towers, curve arithmetic, SSWU, cofactor clearing, map_to_curve, Miller steps, final exponentiation), extract_enc.py (40 functions: EncodedPoint impls, SerDes impls), extract_pair.py (Miller-loop driver, G2 preparation, pairing helpers) [, extract_msm.py when present]; each translated definition is proved EQUAL to the hand model (PP.Props.Gen*), a construct they do not understand is a broken obligation; their faithfulness (Rust semantics of the subset they accept: shadowing, &mut as returned value, Option for panics, u64 wrap-around where Rust wraps, overflow checks of usize arithmetic not modelled) is trusted and validated by the differential runs",
+    "what is NOT reached by a translator is tied to /repo by differential execution only (harness/ppexec vs lean ppdrv on the generated cases): eval_iso (functional model + loop-invariant theorems), hash_to_field / expand_message glue, wNAF and multi-scalar code unless PP.Props.GenMsm is present, std/ff/digest primitives (Vec, iterators, BitIterator, adc/sbb/mac text-checked by hash)",
     "pylib/oracle.py (python spec-level oracle, used to build inputs, as third opinion on the implementation's outputs, and for the failing-input search)",
-    "modelled, not verified: proc-macro's unrolled limb-level Montgomery mul/square (integer-level REDC model), std::io Read/Write (byte lists), byteorder, generic-array, sha2/sha3 crates (Lean re-implementations PP/Spec/Hash.lean, validated differentially)",
+    "modelled, not verified: std::io Read/Write (byte lists), byteorder, generic-array, sha2/sha3 crates (Lean re-implementations PP/Spec/Hash.lean, validated differentially against the crates and hashlib); thread scheduling (C20: source audit, 16-thread stress, Miri in the thorough tier)",
     "rustc/LLVM, OS",
 ]
 
-DIFF = " Tie to the code: constants/chains regenerated from /repo on every run (a changed constant breaks a kernel-checked obligation); control flow by differential execution of the real code against the compiled Lean model on directed input classes, plus an independent python oracle."
+DIFF = " Tie to the code: constants, chains and (for the arithmetic, encoding, derive and pairing-driver layers) the function bodies themselves are regenerated from /repo on every run and proved equal to the model (a changed constant or function breaks a kernel-checked obligation); everything, translated or not, is also run differentially: the real code against the compiled Lean model on directed input classes, with an independent python oracle as the spec side."
 
 PROPS = {
     "C01": {
         "modules": ["PP.Props.C01"], "level": "proof", "technique": "Lean 4 proof (refinement to Mathlib's Weierstrass point group) + differential model/impl correspondence",
         "text": "Theorems for every field of char != 2,3 and every b != 0: the model's Jacobian double/add/addMixed/neg/sub/beq/toAffine/toJac/batchNormalize refine Mathlib's group law on W.Point for ALL on-curve inputs and ALL representatives (identity, P+P, P+(-P), same point under two representatives, y=0), and every finite program over a register file ends in the point the abstract group predicts (induction on the program); instantiated for G1 and G2 (ShortW instances)." + DIFF,
-        "note": "model = code only on the explored cases; curve hypotheses 2,3,b != 0 proved for both concrete curves",
+        "note": "the curve macro's double/add/mixed add/negate/eq/conversions are translated from the source and proved equal to the model (GenArith); batch_normalization is tied by differential cases; curve hypotheses 2,3,b != 0 proved for both concrete curves",
     },
     "C02": {
         "modules": ["PP.Props.C02", "PP.Props.C02Inst"], "level": "proof", "technique": "Lean 4 proof (induction over bit lists / digit columns / wNAF digits, invariants) + differential correspondence",
@@ -71,7 +71,7 @@ PROPS = {
     "C11": {
         "modules": ["PP.Props.C11", "PP.Props.C11Neg"], "level": "other", "technique": "Lean 4 proof of the product structure and of the cancellation law e(P,Q)e(-P,Q)=1 for all inputs + oracle tests of the general exponent clause",
         "text": "Theorems: joint Miller loop = product of single Miller loops for every list, identity pairs contribute 1 at any position, final exponentiation multiplicative (C12), prepared length / no unwrap panic, helpers agree for equal lengths. Proved WITHOUT bilinearity (PP.Props.C11Neg, via the textbook lines of C03Lines and the conjugation symmetry l_T(-P) = -conj l_T(P)): for every P on E(Fq) and every Q accepted by in_subgroup, identities included, pairing(-P,Q) = pairing(P,-Q) = pairing(P,Q)^-1, pairing_product(P,Q,-P,Q) = pairing_product(P,Q,P,-Q) = pairing_multi_product([P,-P],[Q,Q]) = 1, and pairing_product(P1,Q,-P2,Q) = 1 iff e(P1,Q) = e(P2,Q) (the verification equation with a common second argument). The general clause e(g1,g2)^(sum a_i b_i) needs bilinearity (C03) and is tested (cancelling combinations, a shared prepared element, the textbook ate oracle)." + DIFF,
-        "note": "partial: exponent clause is test-only",
+        "note": "partial: the general exponent clause is test-only (the cancelling case is proved); the Miller-loop driver and the product helpers are translated from the source and proved equal to the model (GenPair)",
         "explanation": "theorem-backed: product structure, identity pairs, helper agreement, no panic; test-backed: value equals e(g1,g2)^(sum a_i b_i)",
         "partial": ["general exponent clause needs bilinearity (test only); the cancelling case a_2 = -a_1 is proved"],
     },
